@@ -5,54 +5,36 @@ use crate::execution::operators::OperatorError;
 use crate::execution::pipeline::{ChunkSizeHint, PushOperator, Sink};
 use crate::execution::selection::SelectionVector;
 use crate::execution::vector::ValueVector;
-use grafeo_common::types::Value;
+use grafeo_common::types::{HashableValue, Value};
 use std::collections::HashSet;
 
-/// Hash key for distinct tracking.
+/// Key for distinct tracking: the values of the row themselves.
+///
+/// `HashableValue` hashes and compares values by identity (floats by bit pattern, no
+/// numeric coercion), so two rows share a key exactly when they hold the same values.
 #[derive(Debug, Clone, PartialEq, Eq, Hash)]
-struct RowKey(Vec<u64>);
+struct RowKey(Vec<HashableValue>);
 
 impl RowKey {
     fn from_row(chunk: &DataChunk, row: usize, columns: &[usize]) -> Self {
-        let hashes: Vec<u64> = columns
+        let values: Vec<HashableValue> = columns
             .iter()
             .map(|&col| {
-                chunk
-                    .column(col)
-                    .and_then(|c| c.get_value(row))
-                    .map_or(0, |v| hash_value(&v))
+                HashableValue::new(
+                    chunk
+                        .column(col)
+                        .and_then(|c| c.get_value(row))
+                        .unwrap_or(Value::Null),
+                )
             })
             .collect();
-        Self(hashes)
+        Self(values)
     }
 
     fn from_all_columns(chunk: &DataChunk, row: usize) -> Self {
-        let hashes: Vec<u64> = (0..chunk.column_count())
-            .map(|col| {
-                chunk
-                    .column(col)
-                    .and_then(|c| c.get_value(row))
-                    .map_or(0, |v| hash_value(&v))
-            })
-            .collect();
-        Self(hashes)
+        let columns: Vec<usize> = (0..chunk.column_count()).collect();
+        Self::from_row(chunk, row, &columns)
     }
-}
-
-fn hash_value(value: &Value) -> u64 {
-    use std::collections::hash_map::DefaultHasher;
-    use std::hash::{Hash, Hasher};
-
-    let mut hasher = DefaultHasher::new();
-    match value {
-        Value::Null => 0u8.hash(&mut hasher),
-        Value::Bool(b) => b.hash(&mut hasher),
-        Value::Int64(i) => i.hash(&mut hasher),
-        Value::Float64(f) => f.to_bits().hash(&mut hasher),
-        Value::String(s) => s.hash(&mut hasher),
-        _ => 0u8.hash(&mut hasher),
-    }
-    hasher.finish()
 }
 
 /// Push-based distinct operator.
@@ -336,5 +318,26 @@ mod tests {
         let chunks = sink.into_chunks();
         assert_eq!(chunks.len(), 1);
         assert_eq!(chunks[0].len(), 7); // 7 unique values
+    }
+
+    #[test]
+    fn test_distinct_keeps_values_of_different_types_apart() {
+        let mut distinct = DistinctPushOperator::new();
+        let mut sink = CollectorSink::new();
+
+        // NULL / FALSE and 0 / 0.0 are four different values
+        let values = [
+            Value::Null,
+            Value::Bool(false),
+            Value::Int64(0),
+            Value::Float64(0.0),
+            Value::Null,
+        ];
+        let chunk = DataChunk::new(vec![ValueVector::from_values(&values)]);
+        distinct.push(chunk, &mut sink).unwrap();
+        distinct.finalize(&mut sink).unwrap();
+
+        assert_eq!(distinct.unique_count(), 4);
+        assert_eq!(sink.row_count(), 4);
     }
 }
